@@ -1024,6 +1024,13 @@ def direction_run(case):
                                  '(jump_interval %d)' % (fam, it, k)))
                 break
             if kind != 'ss':
+                first = 1 if kind == 'veitch' else 2
+                if changed and dk < first:
+                    findings.append(('adapts-before-start:' + fam,
+                                     '%s: scale attributes changed at iteration %d, proposal step %d, dk=%d: before the '
+                                     'adaptation starts (start_step %d, jump_interval %d)' % (
+                                         fam, it, prop.nsteps, dk, prop.start_step, k)))
+                    break
                 after = dk >= T
                 if after:
                     out['post_window_steps'] += 1
@@ -1205,6 +1212,16 @@ def _direction_collect(seen, outs):
             if key not in findings or c['nsteps'] < findings[key][1]['nsteps']:
                 findings[key] = (text, c)
     return findings, cov
+
+
+def finding_family(key):
+    """The proposal family a finding key is about."""
+    if key == 'vmf-overflow':
+        return 'adaptive_isotropic_solid_angle'
+    if key.startswith('bounded-eigenvector-corner'):
+        return 'adaptive_bounded_eigenvector'
+    parts = key.split(':')
+    return parts[1] if len(parts) > 1 else None
 
 
 # --------------------------------------------------------------------------
